@@ -355,7 +355,39 @@ func runC20(c *Ctx, r *Report) {
 				n6++
 				okGuard := false
 				var seenConds []string
-				for _, cc := range controlling(b) {
+				conds := controlling(b)
+				// `a || b` before the return: the block has one predecessor edge per disjunct; every one of them
+				// must be an accepted condition taken on its true edge
+				if len(b.Preds) > 1 {
+					all := true
+					var extra []ctrlCond
+					for _, p := range b.Preds {
+						ifi, ok := p.Instrs[len(p.Instrs)-1].(*ssa.If)
+						if !ok || p.Succs[0] != b || p.Succs[1] == b {
+							all = false
+							break
+						}
+						extra = append(extra, ctrlCond{If: ifi, Cond: ifi.Cond, Edge: 0})
+					}
+					if all && len(extra) > 0 {
+						nOK := 0
+						for _, cc := range extra {
+							if c.noChildrenCond(cc, ab, minIdx, maxIdx, leafIdx) {
+								nOK++
+							}
+							seenConds = append(seenConds, cc.Cond.String())
+						}
+						if nOK == len(extra) {
+							okGuard = true
+						}
+					}
+				}
+				for _, cc := range conds {
+					if c.noChildrenCond(cc, ab, minIdx, maxIdx, leafIdx) {
+						okGuard = true
+					}
+				}
+				for _, cc := range conds[:0] {
 					switch x := cc.Cond.(type) {
 					case *ssa.BinOp:
 						// t == nil
@@ -477,4 +509,35 @@ func init() {
 		assume:  []string{"the trie is only mutated through Insert (checked: children/valid/min/max have no other writers in the module is part of R3/R2 scope: package trie)"},
 		run:     runC20,
 	})
+}
+
+// noChildrenCond: the controlling condition means the trie node has no children: nil receiver, the leaf flag
+// of the shared end marker, or min > max (the constructor starts with min 255, max 0 and Insert only widens).
+func (c *Ctx) noChildrenCond(cc ctrlCond, ab *ssa.Function, minIdx, maxIdx, leafIdx int) bool {
+	switch x := cc.Cond.(type) {
+	case *ssa.BinOp:
+		if x.Op == token.EQL && cc.Edge == 0 && x.X == ssa.Value(ab.Params[0]) && isNilConst(x.Y) {
+			return true
+		}
+		lx, ok1 := x.X.(*ssa.UnOp)
+		ly, ok2 := x.Y.(*ssa.UnOp)
+		if ok1 && ok2 {
+			fx, ok3 := lx.X.(*ssa.FieldAddr)
+			fy, ok4 := ly.X.(*ssa.FieldAddr)
+			if ok3 && ok4 {
+				op := x.Op
+				if cc.Edge == 1 {
+					op = negOp[op]
+				}
+				if (op == token.GTR && fx.Field == minIdx && fy.Field == maxIdx) || (op == token.LSS && fx.Field == maxIdx && fy.Field == minIdx) {
+					return true
+				}
+			}
+		}
+	case *ssa.UnOp:
+		if fa, ok := x.X.(*ssa.FieldAddr); ok && fa.Field == leafIdx && cc.Edge == 0 && leafIdx >= 0 {
+			return true
+		}
+	}
+	return false
 }
